@@ -305,7 +305,8 @@ def main(argv):
     if ok and terms:
         extra_q = [(rundir, "Gen")] if ties else []
         imports = mod.COQ_IMPORTS + "".join(f"\nFrom Gen Require {g}." for g in sorted(mod.GEN_AVAILABLE))
-        coq_checked, bad, errors = coqio.run_case_files(terms, imports, rundir, extra_q=extra_q)
+        coq_checked, bad, errors = coqio.run_case_files(terms, imports, rundir, extra_q=extra_q,
+                                                            chunk=getattr(mod, "CHUNK", 250))
         for name, msg, idxs in errors:
             broken.append(("correspondence-harness", f"{os.path.basename(name)}: {msg}"))
         for bidx in bad:
